@@ -294,6 +294,9 @@ def current_model(c):
     return c._model
 
 
+WITNESS_KEY = bytes.fromhex('99abcdef')      # the key of the repository's own obfuscation vector
+
+
 def raise_if_harness(e):
     """an engine error wrapped by aioslsk (MessageDeserializationError from HarnessError) is not a verdict"""
     seen = 0
@@ -331,7 +334,8 @@ def h_message(c, cls_name, S, A, long, part=0, parts=1, rich=False):
     L = MESSAGES[cls_name]
     fields, idw, comp = L['fields'], L['id_width'], L['compressed']
     shapes = shapes_cached(cls_name, fields, {'S': S, 'A': A, 'long': long, 'rich': rich})[part::parts]
-    shape = shapes[c.choose(len(shapes), 'shape')]
+    si = c.choose(len(shapes), 'shape')
+    shape = shapes[si]
     sig = [cls_name, shape_tag(shape)]
     info = {'shape': shape}
     cls = resolve(cls_name)
@@ -379,6 +383,35 @@ def h_message(c, cls_name, S, A, long, part=0, parts=1, rich=False):
         c.check(body_matches(raw[4 + idw:], payload, comp), 'wire_layout', sig=sig, info=info)
         if not comp:
             c.check(n == 4 + idw + len(payload), 'wire_layout', sig=sig, info=info)
+        # (g) the public "append a frame" contract of serialize_into(buffer): the caller's buffer may already hold bytes
+        # (a symbolic prefix of 0..3 bytes, then a first frame); what is appended is exactly one frame - its prefix counts
+        # the bytes that follow it, its bytes are the pinned layout - and nothing that was in the buffer is touched.
+        # The second append of a compressed class passes compress=True (what its serialize() does).
+        frame_ref = le(idw + len(payload), 4) + le(L['id'], idw) + payload
+        for pre in (range(4) if len(shapes) < 4 else [(si + part) % 4]):
+            prefix = g.raw(f'buf{pre}', pre)
+            buf = codec.sym_bytearray() if c.symbolic else bytearray()
+            buf.extend(prefix)
+            for which, compress in (('first', False), ('second', comp)):
+                asig = sig + [f'append_{which}' + ('_compressed' if compress else '')]
+                ainfo = {'shape': shape, 'buffer_bytes_before': len(buf)}
+                before = buf[:]
+                try:
+                    if compress:
+                        m.serialize_into(buf, compress=True)
+                    else:
+                        m.serialize_into(buf)
+                except symex.HarnessError:
+                    raise
+                except Exception as e:  # noqa
+                    raise_if_harness(e)
+                    c.check(False, 'encode_total', sig=asig, info=repr(e))
+                    break
+                c.reach('appended')
+                frame = buf[len(before):]
+                c.check(len(buf) >= len(before) and beq(buf[:len(before)], before), 'append_buffer_untouched', sig=asig, info=ainfo)
+                c.check(len(frame) >= 4 and (uint_le(frame[0:4]) == len(frame) - 4), 'append_length_prefix', sig=asig, info=ainfo)
+                c.check(beq(frame, raw) if compress else terms_equal(frame, frame_ref), 'append_wire_layout', sig=asig, info=ainfo)
         # (a) decode(encode(m)) == m
         try:
             back = cls.deserialize(0, raw)
@@ -392,6 +425,10 @@ def h_message(c, cls_name, S, A, long, part=0, parts=1, rich=False):
             c.check(codec.eq_formula(back, exp) if c.symbolic else real_eq(back, exp), 'roundtrip', sig=sig, info=info)
         # (d) connection level: encode_message_data -> (obfuscated) wire -> decode_message_data -> dispatcher
         for obf in ((False, True) if L['group'] != 'distributed' else (False,)):
+            if obf and comp:
+                # the zlib stand-in's frame is longer than the real one and obfuscation faults depend on the frame length
+                # (a symbolic verdict would not transfer): compressed x obfuscated is decided below on the real-zlib witness
+                continue
             csig = sig + ['obfuscated' if obf else 'plain']
             conn = make_connection(L['group'], L['kind'], obf)
             try:
@@ -433,10 +470,14 @@ def h_message(c, cls_name, S, A, long, part=0, parts=1, rich=False):
             witness = (m, exp, raw, None)
     if witness is not None:
         wm, wexp, wraw, wpayload = witness
+        real_raw = None
         try:
             real_raw = wm.serialize()
             real_back = cls.deserialize(0, real_raw)
             ok = real_eq(real_back, wexp) and int.from_bytes(real_raw[:4], 'little') == len(real_raw) - 4
+            rbuf = bytearray(b'\x05\x06\x07')
+            wm.serialize_into(rbuf, compress=comp)
+            ok = ok and bytes(rbuf[:3]) == b'\x05\x06\x07' and bytes(rbuf[3:]) == real_raw
             if comp and wpayload is not None:
                 ok = ok and zlib.decompress(real_raw[4 + idw:]) == wpayload
             elif c.symbolic and real_raw != wraw:
@@ -448,6 +489,24 @@ def h_message(c, cls_name, S, A, long, part=0, parts=1, rich=False):
             ok = False
             info = {'shape': shape, 'exc': repr(e)}
         c.check(ok, 'real_codec_witness', sig=sig, info=info)
+        if comp and real_raw is not None and L['group'] != 'distributed':
+            # compressed x obfuscated on the exact real frame, fixed non-trivial key (all keys/lengths: obfuscation harness)
+            csig = sig + ['obfuscated']
+            with codec.installed(False, key_source=lambda k: WITNESS_KEY[:k]):
+                conn = make_connection(L['group'], L['kind'], True)
+                try:
+                    wire = conn.encode_message_data(wm)
+                    c.check(len(wire) == len(real_raw) + 4 and wire[:4] == WITNESS_KEY, 'wire_framing', sig=csig, info=info)
+                    got = conn.decode_message_data(wire)
+                except symex.HarnessError:
+                    raise
+                except Exception as e:  # noqa
+                    raise_if_harness(e)
+                    c.check(False, 'decode_total', sig=csig, info=repr(e) + ' / ' + repr(e.__cause__))
+                else:
+                    c.reach('roundtrip_connection')
+                    if c.check(type(got) is cls, 'dispatch_class', sig=csig, info=type(got).__qualname__):
+                        c.check(real_eq(got, wexp), 'roundtrip_connection', sig=csig, info=info)
 
 
 # ------------------------------------------------------------------------------
@@ -559,29 +618,44 @@ def h_obfuscation(c, lo, hi):
         return gen[-1]
 
     kt, dt, ot = [list(x.b) if isinstance(x, SBytes) else list(x) for x in (key, data, other)]
-    with codec.installed(c.symbolic, key_source=key_source):
+    sig = sig[:1] + ['empty' if n == 0 else sig[1]]
+
+    def total(what, fn, *dependent):
+        """obf_total: encode/decode of in-range input (4-byte key + any payload, the empty one included) raise nothing.
+        When a call raises, the obligations that needed its result are marked reached (they are owed, not vacuous)."""
         try:
-            enc = O.encode(data, key)
-            dec = O.decode(enc)
-            dec_other = O.decode(key + other)
-            enc_gen = O.encode(data)
-            head = O.decode(enc[:8]) if n >= 4 else None
+            r = fn()
         except symex.HarnessError:
             raise
         except Exception as e:  # noqa
             raise_if_harness(e)
-            c.check(False, 'obf_total', sig=sig, info=repr(e))
-            return
+            c.check(False, 'obf_total', sig=sig + [what], info=repr(e))
+            for lab in dependent:
+                c.reach(lab)
+            return None
+        c.check(True, 'obf_total', sig=sig + [what])
+        return r
+
+    with codec.installed(c.symbolic, key_source=key_source):
+        enc = total('encode', lambda: O.encode(data, key), 'obf_length', 'obf_key_prefix', 'obf_keystream', 'obf_roundtrip')
+        dec = total('decode_of_encode', lambda: O.decode(enc), 'obf_roundtrip') if enc is not None else None
+        dec_other = total('decode', lambda: O.decode(key + other), 'obf_decode_keystream')
+        enc_gen = total('encode_generated_key', lambda: O.encode(data), 'obf_generated_key')
+        head = total('decode_header_only', lambda: O.decode(enc[:8]), 'obf_header_only') if (enc is not None and n >= 4) else None
         c.reach('obfuscated')
-        c.check(len(enc) == n + 4, 'obf_length', sig=sig)
-        c.check(terms_equal(enc[:4], kt), 'obf_key_prefix', sig=sig)
-        c.check(terms_equal(enc[4:], [_xor(dt[i], keystream(kt, i)) for i in range(n)]), 'obf_keystream', sig=sig)
-        c.check(terms_equal(dec, dt), 'obf_roundtrip', sig=sig)
-        c.check(terms_equal(dec_other, [_xor(ot[i], keystream(kt, i)) for i in range(n)]), 'obf_decode_keystream', sig=sig)
-        gk = [list(x.b) if isinstance(x, SBytes) else list(x) for x in gen]
-        c.check(codec._and(len(gk) == 1, len(enc_gen) == n + 4, terms_equal(enc_gen[:4], gk[0]) if gk else False,
-                           terms_equal(enc_gen[4:], [_xor(dt[i], keystream(gk[0], i)) for i in range(n)]) if gk else False),
-                'obf_generated_key', sig=sig)
+        if enc is not None:
+            c.check(len(enc) == n + 4, 'obf_length', sig=sig)
+            c.check(terms_equal(enc[:4], kt), 'obf_key_prefix', sig=sig)
+            c.check(terms_equal(enc[4:], [_xor(dt[i], keystream(kt, i)) for i in range(n)]), 'obf_keystream', sig=sig)
+        if dec is not None:
+            c.check(terms_equal(dec, dt), 'obf_roundtrip', sig=sig)
+        if dec_other is not None:
+            c.check(terms_equal(dec_other, [_xor(ot[i], keystream(kt, i)) for i in range(n)]), 'obf_decode_keystream', sig=sig)
+        if enc_gen is not None:
+            gk = [list(x.b) if isinstance(x, SBytes) else list(x) for x in gen]
+            c.check(codec._and(len(gk) == 1, len(enc_gen) == n + 4, terms_equal(enc_gen[:4], gk[0]) if gk else False,
+                               terms_equal(enc_gen[4:], [_xor(dt[i], keystream(gk[0], i)) for i in range(n)]) if gk else False),
+                    'obf_generated_key', sig=sig)
         if head is not None:
             # what DataConnection._read_message relies on: the first 8 bytes alone give the 4 length bytes
             c.check(terms_equal(head, dt[:4]), 'obf_header_only', sig=sig)
@@ -590,6 +664,20 @@ def h_obfuscation(c, lo, hi):
 # ------------------------------------------------------------------------------
 # META / jobs / prelude
 # ------------------------------------------------------------------------------
+
+def _fns(mod, names):
+    """function objects for the evidence; a name that a changed tree no longer has must not break the import of the check"""
+    out = []
+    for dotted in names.split():
+        o = mod
+        try:
+            for a in dotted.split('.'):
+                o = getattr(o, a)
+            out.append(getattr(o, '__func__', o))
+        except AttributeError:
+            out.append(f'{mod.__name__}:{dotted} (not present in this tree)')
+    return out
+
 
 META = {
     'level': 'other',
@@ -605,17 +693,15 @@ META = {
                    'same class and an equal message, (e) one model witness per path through the real unstubbed codec (real struct, real zlib), '
                    '(f) obfuscation: length, key prefix, keystream = rotl32(key, j mod 32 + 1) per 4-byte block, decode inverse, header-only decode, '
                    'for all keys and data bytes at every length 0..140/300.',
-    'functions': [P.ProtocolDataclass.serialize, P.ProtocolDataclass.serialize_into, P.ProtocolDataclass.deserialize.__func__,
-                  P.ProtocolDataclass._field_needs_deserialization.__func__, P.ProtocolDataclass._get_value_for_field,
-                  P.MessageDataclass.serialize, P.MessageDataclass.serialize_into, P.MessageDataclass.deserialize.__func__,
-                  P.Attribute.serialize, P.Attribute.serialize_into, P.Attribute.deserialize.__func__,
-                  P.FileData.serialize, P.FileData.serialize_into, P.FileData.deserialize.__func__,
-                  P.DirectoryData.serialize, P.DirectoryData.deserialize.__func__,
-                  P.uint8, P.uint16, P.uint32, P.uint64, P.int32, P.boolean, P.string, P.bytearr, P.ipaddr, P.array,
-                  M._PeerInitTicket, M.ServerMessage.deserialize_request.__func__, M.ServerMessage.deserialize_response.__func__,
-                  M.PeerInitializationMessage.deserialize_request.__func__, M.PeerMessage.deserialize_request.__func__,
-                  M.DistributedMessage.deserialize_request.__func__, O.rotate_key, O.encode, O.decode, O.generate_key,
-                  DataConnection.encode_message_data, DataConnection.decode_message_data, DataConnection.serialize_message,
+    'functions': _fns(P, 'ProtocolDataclass.serialize ProtocolDataclass.serialize_into ProtocolDataclass.deserialize '
+                         'ProtocolDataclass._field_needs_deserialization ProtocolDataclass._get_value_for_field MessageDataclass.serialize '
+                         'MessageDataclass.serialize_into MessageDataclass.deserialize Attribute.serialize Attribute.serialize_into '
+                         'Attribute.deserialize FileData.serialize FileData.serialize_into FileData.deserialize DirectoryData.serialize '
+                         'DirectoryData.deserialize uint8 uint16 uint32 uint64 int32 boolean string bytearr ipaddr array decode_string') +
+                 _fns(M, '_PeerInitTicket ServerMessage.deserialize_request ServerMessage.deserialize_response '
+                         'PeerInitializationMessage.deserialize_request PeerMessage.deserialize_request DistributedMessage.deserialize_request') +
+                 _fns(O, 'rotate_key encode decode generate_key') +
+                 [DataConnection.encode_message_data, DataConnection.decode_message_data, DataConnection.serialize_message,
                   ServerConnection.deserialize_message, PeerConnection.deserialize_message,
                   'all 158 Request/Response dataclasses of aioslsk.protocol.messages (constructed with their real __init__)'],
     'stubs': codec.STUBS + ['connections are built with their real constructors and network=None; PeerConnection.connection_state is assigned directly'],
@@ -650,7 +736,8 @@ def jobs(tier):
     p = {'S': b['S'], 'A': b['A'], 'long': b['long'], 'rich': b['rich']}
     out = []
     req = ['encoded', 'length_prefix', 'message_code', 'wire_layout', 'roundtrip', 'wire_framing', 'dispatch_class',
-           'roundtrip_connection', 'real_codec_witness']
+           'roundtrip_connection', 'real_codec_witness', 'appended', 'append_buffer_untouched', 'append_length_prefix',
+           'append_wire_layout']
     # the shapes of a class are split over several jobs (about SHAPES_PER_JOB units of work each); heavy ones first
     # wall-clock limits per job (a job takes 2-3 s CPU on a tree where the property holds). On a tree where the layout is
     # broken the decoder sees mis-framed symbolic bytes and the path tree of the list-bearing classes explodes: the job is then
@@ -671,8 +758,8 @@ def jobs(tier):
     step = 10
     for lo in range(0, b['obf_max'] + 1, step):
         out.append({'harness': 'obfuscation', 'fn': h_obfuscation, 'params': {'lo': lo, 'hi': min(lo + step - 1, b['obf_max'])}, **limits,
-                    'requires': ['obfuscated', 'obf_length', 'obf_key_prefix', 'obf_keystream', 'obf_roundtrip', 'obf_decode_keystream',
-                                 'obf_generated_key']})
+                    'requires': ['obfuscated', 'obf_total', 'obf_length', 'obf_key_prefix', 'obf_keystream', 'obf_roundtrip',
+                                 'obf_decode_keystream', 'obf_generated_key']})
     return out
 
 
@@ -697,8 +784,15 @@ def prelude(tier):
     notes.append(f'pinned layout: {len(MESSAGES)} message classes, {len(RECORDS)} records (generated from {LAYOUT["generated_from"][:10]}); '
                  f'classes in the code that are not pinned (NOT covered): {extra or "none"}')
     # reference encoder + pinned table cross-checked against the repository's own byte vectors
+    # RULE: only the PINNED byte strings (the hex literals of the repository's vector file) are an authority for the reference
+    # encoder; bytes merely produced by the code under test are not (on a changed tree they may be wrong: the harness decides).
+    import re
+    try:
+        pinned = {bytes.fromhex(h) for h in re.findall(r"fromhex\(\s*['\"]([0-9a-fA-F]*)['\"]\s*\)", open(codec.TEST_VECTORS).read())}
+    except OSError:
+        pinned = set()
     rec, outcomes = codec.harvest_vectors()
-    n_ser = n_de = 0
+    n_ser = n_de = n_unpinned = 0
     noncanon = []
     for kind, obj, data, comp, tname in rec:
         name = type(obj).__qualname__
@@ -716,6 +810,9 @@ def prelude(tier):
             body = None
         same = (int.from_bytes(data[:4], 'little') == len(data) - 4 and data[4:4 + idw] == L['id'].to_bytes(idw, 'little')
                 and body == payload)
+        if data not in pinned:
+            n_unpinned += 1
+            continue
         if kind == 'ser':
             n_ser += 1
             if not same:
@@ -728,6 +825,8 @@ def prelude(tier):
     notes.append(f'reference encoder over the pinned table reproduces all {n_ser} serialize vectors and {n_de - len(noncanon)} of {n_de} '
                  f'deserialize vectors of tests/unit/protocol/test_messages.py byte for byte; the other {len(noncanon)} are non-canonical inputs '
                  f'(absent optional decoded to a default, uint64 PeerInit ticket, trailing bytes): {sorted(set(noncanon))}')
+    if n_unpinned:
+        notes.append(f'{n_unpinned} recorded byte strings are not literals of the vector file and were not used as an authority')
     failing = sorted(k for k, v in outcomes.items() if v != 'pass')
     if failing:
         notes.append(f'{len(failing)} repository vector tests do not pass on this tree: {failing[:5]}')
